@@ -234,7 +234,10 @@ def rank_projection(A: np.ndarray) -> tuple[list, list]:
     return V, R
 
 
-def check_optimiser(ctx: Ctx, workers: int) -> None:
+def check_optimiser(ctx: Ctx, workers: int, only: dict | None = None) -> None:
+    if only is not None:
+        return _real_optimiser(ctx, [{"id": 1, "kind": "replay", "n": len(only["matrix"]), "A": only["matrix"], "samples": only["samples"], "seed": only["seed"],
+                                      "dtype": only["dtype"], "integer": bool(np.all(np.asarray(only["matrix"]) == np.round(np.asarray(only["matrix"])))), "record": True}])
     # ---- model: bookkeeping around an adversarial RCM step |= contract
     base = "SPECIFICATION Spec\nCONSTANTS\n  N = {n}\n  Vals <- {v}\n  ReturnBest = {rb}\nINVARIANT AccTracks\nINVARIANT CandidatesHonest\nINVARIANT Contract\nINVARIANT NeverRaises\nPROPERTY Terminates\n"
     for nm, n, v in [("n3", 3, "cVals3")] + ([] if ctx.quick else [("n4", 4, "cVals2")]):
@@ -259,6 +262,10 @@ def check_optimiser(ctx: Ctx, workers: int) -> None:
         if j["integer"] and j["n"] <= 12 and j["dtype"] == "float64" and nrec < ctx.pick(40, 300):
             j["record"] = True
             nrec += 1
+    _real_optimiser(ctx, jobs)
+
+
+def _real_optimiser(ctx: Ctx, jobs: list[dict]) -> None:
     jobs.sort(key=lambda j: -j["n"] * (j["samples"] + 1))
     outs = {o["id"]: o for o in Q.pool_map(run_optimiser, jobs, chunksize=2)}
     records = []
@@ -326,6 +333,19 @@ def run(ctx: Ctx) -> None:
         "the contract on sizes 1..30 is explored by seeded random matrices (exploration), not exhaustively; torch / random / numpy seeded from VERIF_SEED",
         "TLC, numpy",
     ]
+    if ctx.replay:                                   # ./check C32 --replay <file>
+        obj = json.loads(open(ctx.replay).read())["replay"]
+        ctx.coverage["rule"] = "replay of one recorded case"
+        if "matrix" in obj:
+            check_optimiser(ctx, workers, only=obj)
+        else:
+            o = real_helper_outputs(obj["n"], obj["perm"])
+            ctx.case(("helpers", obj["n"], obj["perm"]))
+            ctx.log(f"replay: real helper outputs {o}")
+            if o["inv"] != [obj["perm"].index(i) for i in range(obj["n"])] or not all(o[k] == obj["perm"] for k in ("list", "tuple", "string", "vector")) \
+                    or o["back_list"] != list(range(obj["n"])) or o["back_string"] != list(range(obj["n"])):
+                ctx.violation("helpers:replay", f"the helpers still disagree for perm {obj['perm']}: {o}", obj)
+        return
     check_helpers(ctx, workers)
     check_optimiser(ctx, workers)
     ctx.coverage["rule"] = ("helpers: one case per permutation of 1..6 elements (all of them; non-trivial = not the identity); optimiser: one case per "
